@@ -46,8 +46,9 @@ func entityHeaders(resp *Resp) string {
 	for k, vs := range resp.Header {
 		lk := strings.ToLower(k)
 		switch {
-		case strings.HasPrefix(lk, "x-amz-meta-"), lk == "content-type", lk == "content-encoding", lk == "content-disposition",
-			lk == "etag", lk == "content-length", lk == "last-modified", lk == "x-amz-version-id":
+		case lk == "x-amz-id-2", lk == "x-amz-request-id":
+		case strings.HasPrefix(lk, "x-amz-"), lk == "content-type", lk == "content-encoding", lk == "content-disposition",
+			lk == "etag", lk == "content-length", lk == "last-modified":
 			lines = append(lines, k+": "+strings.Join(vs, ","))
 		}
 	}
